@@ -20,7 +20,11 @@ impl<'b> Request<'b> {
         let (method, rest) = parse_method(buf)?;
         let (uri, rest) = parse_uri(rest)?;
         let (http_version, rest) = parse_version(rest)?;
-        let rest = rest.get(2..).ok_or(UnexpectedEof)?; // skip "\r\n"
+        let rest = match rest {
+            [b'\r', b'\n', rest @ ..] => rest,
+            [] | [b'\r'] => return Err(UnexpectedEof),
+            _ => return Err(MalformedStatusLine),
+        };
         let (headers, rest) = parse_headers(rest)?;
 
         Ok(Request {
